@@ -69,6 +69,11 @@ PROPS = {
                 trusted=["the environment of a client-type endpoint is a script of connection-attempt outcomes and channel deaths (Mav/Model/Provider.lean); time is observed in units of the reconnect period (200 ms, set through the hook) with a tolerance of 0.42 period",
                          "kernel TCP/UDP loopback behaviour (refused connections, RST on SO_LINGER 0, deadlines) as observed"],
                 partial=["idle expiry and deadlines: the theorems are about the read-loop and wrapper models; on real runs silent peers must be closed with a timeout cause and busy peers must stay open (server and client scenarios), and the deadlines handed to a recording net.Conn must be call time + timeout"]),
+    "C15": dict(lean=["Mav.Props.C15"], groups=[("C15", sizes(30, 600))], race=True,
+                crash_signatures=[("crash:pion-udp-waitgroup", r"sync: (WaitGroup is reused|WaitGroup misuse|negative WaitGroup).*pion/transport/v2/udp")],
+                trusted=["the Go race detector (ThreadSanitizer happens-before instrumentation) reports every conflicting unsynchronised access pair it observes on the schedules that actually ran; schedules that did not run are covered by the discipline theorems only",
+                         "go/ast extraction of field accesses and lock regions (tools/extract/access.go)"],
+                partial=["race freedom is proved for the model of the synchronisation discipline (confinement / lock / read-only after publication) and the discipline is checked against access facts regenerated from the source; the absence of races in the compiled program is observed under the race detector, not proved"]),
     "C16": dict(lean=["Mav.Props.C16"], groups=[("C16", sizes(45, 900))],
                 trusted=["reflection (FieldByName / SetUint) as observed; the fields set by reflection are regenerated from the source text (Gen.heartbeatFields, Gen.streamRequestFields) and compared by theorem",
                          "heartbeat spacing is observed (12.5 periods of 40-80 ms: count within [8,13], mean gap within [0.8,1.3] periods, no gap below 0.1 period), not proved"],
